@@ -28,6 +28,9 @@ def run(ctx):
     sizes = [(1, False), (4, True), (64, False)] if ctx.quick else [(1, True), (2, False), (3, True), (4, False), (8, True), (16, False), (64, True)]
     for esz, hasx in sizes:
         closure(ctx, exe, esz, hasx, 4 if ctx.quick else 5, props)
+    if not ctx.quick:
+        # objects set up with the CSTL_*_INITIALIZER macros instead of the init functions: same closure, same model
+        closure(ctx, build(ctx, "drv_vec_macro", "drv_vec.c", LIB, wrap=WRAP, defs=["USE_INITIALIZER"]), 4, False, 4, props)
     for esz, hasx in ([(8, True)] if ctx.quick else [(1, False), (24, True)]):
         impl_phase(ctx, f"rand-e{esz}", exe, ["random", ctx.seed, 2500 if ctx.quick else 20000, 3], [esz, int(hasx), 150 if ctx.quick else 240, 1],
                    "TraceVec", "", consts(esz, hasx), props)
